@@ -47,6 +47,9 @@ type obs struct {
 	Stored  int        `json:"stored"`
 	Wanted  int        `json:"wanted"`
 	MergeOK bool       `json:"merge_ok"`
+	// entry probes: one-leaf queries for entries a filter denied although a stored row under it carries them
+	Probes    int `json:"probes"`
+	ProbeLost int `json:"probe_lost"` // stored rows carrying the entry that the probe query did not return
 	Stdio   int        `json:"stdio"`
 }
 
@@ -175,6 +178,9 @@ func main() {
 			}
 		}
 		// read everything back
+		type deniedEntry struct{ kind, entry string }
+		var denied []deniedEntry
+		carriers := map[deniedEntry]int{} // stored rows carrying the entry
 		for mf, err := range meta.GetMaybeFilesForQuery(context.Background(), nil) {
 			h.Must(err, "metastore")
 			o.Files++
@@ -225,20 +231,26 @@ func main() {
 					ff := mf.Metadata.BloomFilters
 					for _, p := range e.Paths {
 						ps := sem.PathString(p)
+						carriers[deniedEntry{"f", ps}]++
 						if denies(bf.FieldBloomFilter, ps) {
 							bo.MissB++
+							denied = append(denied, deniedEntry{"f", ps})
 						}
 						if denies(ff.FieldBloomFilter, ps) {
 							bo.MissF++
+							denied = append(denied, deniedEntry{"f", ps})
 						}
 					}
 					for _, t := range toks {
 						ts := sem.TokenString(t)
+						carriers[deniedEntry{"t", ts}]++
 						if denies(bf.TokenBloomFilter, ts) {
 							bo.MissB++
+							denied = append(denied, deniedEntry{"t", ts})
 						}
 						if denies(ff.TokenBloomFilter, ts) {
 							bo.MissF++
+							denied = append(denied, deniedEntry{"t", ts})
 						}
 					}
 					for _, ft := range fts {
@@ -252,6 +264,31 @@ func main() {
 					}
 				}
 				o.Blocks = append(o.Blocks, bo)
+			}
+		}
+		// for (at most three of) the denied entries: the one-leaf query asking for exactly that entry, on the real engine
+		seen := map[deniedEntry]bool{}
+		for _, de := range denied {
+			if seen[de] || o.Probes >= 3 {
+				continue
+			}
+			seen[de] = true
+			o.Probes++
+			pq := bs.NewQuery().Field(de.entry).Build()
+			if de.kind == "t" {
+				pq = bs.NewQuery().Token(de.entry).Build()
+			}
+			qe, err := bs.NewBloomSearchEngine(cfg, meta, mem)
+			h.Must(err, "probe engine")
+			got := 0
+			if r, err := qe.Query(context.Background(), pq); err == nil {
+				for r.Next() {
+					got++
+				}
+				r.Close()
+			}
+			if got < carriers[de] {
+				o.ProbeLost += carriers[de] - got
 			}
 		}
 		if o.Docs == nil {
